@@ -75,15 +75,17 @@ CHECKS = {
             "from another field, object or call site, no unknown state); binary operations must yield exactly the results of the operand combinations.",
             "Trusted base: harness/valcheck.py; every CFG path is feasible because each branch has its own opaque parameter; lists are excluded.",
             "DESIGN.md 3/C09"),
-    "C12": ("metamorphic testing: Hypothesis-generated base projects x sequences of meaning-preserving edits; call sites, bindings and taint flows compared after mapping positions back",
+    "C12": ("metamorphic testing: Hypothesis-generated base projects (Python projects; core-language programs in seven frontends) and corpus files x sequences of meaning-preserving edits; call sites, bindings and taint flows compared after mapping positions back",
             "Generated Python projects (call chains, class + method, parameter sources, sink calls, unique identifiers) are edited by 1-3 of: blank / "
             "comment lines, consistent renaming of a local, parameter, function, class or method (also of a local that shadows a module-level "
             "variable, renamed inside its function only), no-op insertion, swapping adjacent top-level definitions, moving a function to a new "
             "file and importing it (also out of a second file that a third one imports it from). Both versions run through the whole pipeline; the call sites of all "
             "stored call paths, the P1 binding of every identifier occurrence and the (source, sink) flows must be identical after the line / "
-            "unit / name mapping of the edit is applied.",
-            "Python frontend only; bindings of the moved function's own name are excluded for the move edit; observation helpers are shared "
-            "with C05 (harness/c05_lian.py).",
+            "unit / name mapping of the edit is applied. The same relation is checked on core-language programs rendered in python, javascript, "
+            "typescript, java, go, c and php (blank / comment lines, renamings) and on the repository's small corpus files (a line in front).",
+            "Structural edits (swap, move, no-op) on the Python projects only; the other six frontends get blank / comment lines and renamings on "
+            "generated core-language programs and one line in front of small corpus files; bindings of the moved function's own name are excluded "
+            "for the move edit; observation helpers are shared with C05 (harness/c05_lian.py).",
             "DESIGN.md 3/C12"),
     "C13": ("parameterised adversarial program families with swept size; deterministic step counters and a growth bound between consecutive sizes; forked children under watchdog and memory limit",
             "Twenty-two program families (recursion, mutual-recursion rings, higher-order self-application, cyclic imports, cyclic object graphs, nested loops, "
